@@ -10,7 +10,7 @@ URIs, swap them, omit them, add '' (also '' -> ''); every selector form (ns|E *|
 """
 import random
 
-from vlib import cases, sels, shrink, trees
+from vlib import inplace, cases, sels, shrink, trees
 from vlib.runner import sig
 from vlib.trees import E, T, NS_MATHML, NS_SVG, NS_XHTML, NS_XLINK
 
@@ -229,6 +229,20 @@ def run_unit(u):
                 bump('not_namespace_aware')
                 continue
             cfg = _cfg(pf, apf, names, anames, bool(nsmap) and '' in nsmap)
+            # one dict object edited in place between consecutive calls, nothing else compiled in between (vlib/inplace.py)
+            if isinstance(nsmap, dict) and nsmap and rng.random() < .6:
+                pool = [NS1, NS2, NS3, D1] if how != 'html5lib' else [NS_SVG, NS_MATHML, NS_XHTML, NS_XLINK]
+                ast = sels.gen_list(rng, rng.choice([0, 1, 1]), cfg)
+                keep = case.nsmap
+                r = inplace.sequence(sv, rng, case, ast, sels.render(ast), nsmap, pool)
+                case.nsmap = keep
+                bump('inplace_sequences')
+                bump('inplace_compared', r.get('n', 0))
+                res['evals'] += r.get('n', 0)
+                if not r.get('ok'):
+                    bump('VIOL')
+                    if len(res['viol']) < 8:
+                        res['viol'].append(case.witness(ast, r['text'], r['what'], **{'class': sig('inplace', how, r['what'][:8]), 'inplace': r['maps']}))
             for _s in range(6):
                 ast = sels.gen_list(rng, rng.choice([0, 1, 1, 2]), cfg)
                 st, info = cases.compare_select(sv, case, ast, cases.respelled(rng, ast, .1), match_law=True)
